@@ -158,6 +158,17 @@ impl<'a> BlobIngestion<'a> {
     pub fn finish(self) -> crate::Result<()> {
         use crate::AbstractTree;
 
+        if self.last_key.is_none() {
+            log::trace!("No data written to BlobIngestion, returning early");
+
+            // NOTE: Same as for the standard tree: nothing to publish, just get rid of the
+            // (still empty) files the writers have already created
+            self.blob.finish()?;
+            self.table.writer.finish()?;
+
+            return Ok(());
+        }
+
         let index = self.index().clone();
 
         // CRITICAL SECTION: Atomic flush + seqno allocation + registration
